@@ -160,7 +160,7 @@ def parseStep (s : State) : State :=
   | .error (.stop .pending) => { s with parserEnd := some .waiting }
   | .error (.stop _) => { s with parserEnd := some .closed }
   | .ok (h, rest) =>
-    match framingOf h.headers with
+    match framingFor h.version h.headers with
     | .error .expectationFailed =>
       { addReq s (errReq (printError 417 h.version true)) s.rest with parserEnd := some .closed }
     | .error _ =>
